@@ -214,6 +214,7 @@ func (g *Gen) useTheory(name string) {
 }
 
 var theorySortDeclRe = regexp.MustCompile(`\(declare-datatypes \(\(([A-Za-z0-9_]+) 0\)\)`)
+var codecNameRe = regexp.MustCompile(`\bunmarshal_(T_[A-Za-z0-9]+_[A-Za-z0-9]+)\b`)
 var sortNameRe = regexp.MustCompile(`\bT_[A-Za-z0-9_]+`)
 var opaqueNameRe = regexp.MustCompile(`\bO_[A-Za-z0-9_]+`)
 var sliceNameRe = regexp.MustCompile(`\bSlice_(Str|Int|Bool)\b`)
@@ -245,6 +246,11 @@ func (g *Gen) ensureSortNames(text string) {
 		}
 		for _, m := range optNameRe.FindAllStringSubmatch(text, -1) {
 			g.sorts.ensureOption(m[1])
+		}
+	}()
+	defer func() {
+		for _, m := range codecNameRe.FindAllStringSubmatch(text, -1) {
+			g.declareCodec(m[1])
 		}
 	}()
 	for _, m := range sortNameRe.FindAllString(text, -1) {
